@@ -157,7 +157,7 @@ class LocalRelationshipChecker(RelationshipChecker):
                 continue
 
             # expand next frontier nodes from the expression
-            for s2, r2, o2 in self._expand(expr, s, obj):
+            for s2, r2, o2 in self._expand(expr, s, obj, context):
                 queue.append((s2, r2, o2, depth + 1))
 
         return False
@@ -213,8 +213,25 @@ class LocalRelationshipChecker(RelationshipChecker):
     def _lookup_expr(self, obj_type: str, relation: str) -> UsersetExpr | None:
         return (self.rules.get(obj_type) or {}).get(relation)
 
+    def _caveat_holds(self, t: RelTuple, context: dict[str, Any] | None) -> bool:
+        """True if the tuple is unconditional or its registered predicate accepts the context."""
+        if t.caveat is None:
+            return True
+        pred = self.caveats.get(t.caveat)
+        if pred is None:
+            return False
+        try:
+            return bool(pred(context))
+        except Exception:
+            logger.warning("ReBAC caveat '%s' failed on edge %s", t.caveat, t, exc_info=True)
+            return False
+
     def _expand(
-        self, expr: UsersetExpr, subject: str, resource: str
+        self,
+        expr: UsersetExpr,
+        subject: str,
+        resource: str,
+        context: dict[str, Any] | None = None,
     ) -> Iterable[tuple[str, str, str]]:
         """
         Convert a userset expression into next BFS nodes:
@@ -223,7 +240,7 @@ class LocalRelationshipChecker(RelationshipChecker):
         if isinstance(expr, list):
             # union
             for e in expr:
-                yield from self._expand(e, subject, resource)
+                yield from self._expand(e, subject, resource, context)
             return
         if isinstance(expr, This):
             # already handled direct tuples earlier; no new edges to traverse
@@ -238,6 +255,8 @@ class LocalRelationshipChecker(RelationshipChecker):
             for edge in self.store.direct_for_resource(expr.tupleset, resource):
                 if ":" not in edge.subject:
                     continue
+                if not self._caveat_holds(edge, context):
+                    continue  # conditional edge whose caveat is not satisfied
                 target_obj = edge.subject
                 yield subject, expr.computed_userset, target_obj
             return
